@@ -204,6 +204,8 @@ BoundaryMenu ==
   \cup {ExprOnly(NotE(IsE(ng, Lit(x), Lit(y)))) : ng \in BOOLEAN, x \in {Null, IntV(1)}, y \in {Null, IntV(1), IntV(2)}}
   \cup {ExprOnly(NotE(CmpE(f, Lit(x), Lit(y)))) : f \in {"=", "!=", "<", ">="}, x \in {Null, IntV(1)}, y \in {Null, IntV(1), IntV(2)}}                       \* NOT (NULL = 1) is TRUE: a comparison with NULL is false
   \cup {ExprOnly(Call(f, <<Lit(TextV(<<97, 201, 98>>))>>)) : f \in {"upper", "lower", "length"}}
+  \cup {ExprOnly(Call(f, <<Lit(TextV(tx))>>)) : f \in {"upper", "lower", "length"}, tx \in {<<304, 223, 8490, 64257>>, <<160, 120, 8195>>, <<128512, 769>>, <<>>}}       \* letters whose case forms have other lengths, wide blanks, astral + combining
+  \cup {ExprOnly(CmpE(f, Lit(TextV(<<304>>)), Lit(TextV(<<105, 775>>)))) : f \in {"=", "<"}}
   \cup {ExprOnly(Call(f, <<Lit(TsV(<<2021, 3, 28, 2, 30, 59, 0>>))>>)) : f \in {"extract_year", "extract_month", "extract_day", "extract_hour", "extract_minute", "extract_second"}}
 LinesOne == {KV(A, IntV(1))}
 \* one line whose INT value lies near a boundary (the raw line, `*`, arithmetic and naming on it): the text of such a line is part of the model (IntTextB)
